@@ -23,12 +23,13 @@ class Crash(BaseException):
 
 
 class Inode:
-    __slots__ = ("cache", "durable", "ino")
+    __slots__ = ("cache", "durable", "ino", "link")
     _next = 0
 
     def __init__(self):
         self.cache = b""
         self.durable = None  # None: never reached the disk
+        self.link = None  # target path: this directory entry is a symbolic link
         Inode._next += 1
         self.ino = Inode._next
 
@@ -67,6 +68,33 @@ class SimFS:
             path = posixpath.join(self.cwd, path)
         return posixpath.normpath(path)
 
+    def follow(self, path):
+        """Resolve a symbolic link in the last component (name operations - rename, remove - do not follow)."""
+        path = self.norm(path)
+        for _ in range(8):
+            ino = self.files.get(path)
+            if ino is None or ino.link is None:
+                return path
+            path = self.norm(posixpath.join(posixpath.dirname(path), ino.link))
+        raise OSError(errno.ELOOP, "Too many levels of symbolic links", path)
+
+    def symlink(self, target, path):
+        """Harness helper / os.symlink: a durable symbolic link ``path`` -> ``target``."""
+        path = self.norm(path)
+        self.mkdir(posixpath.dirname(path))
+        ino = Inode()
+        ino.link = str(target)
+        ino.durable = b""
+        self.files[path] = ino
+        self.durable_files[path] = ino
+
+    def islink(self, path):
+        ino = self.files.get(self.norm(path))
+        return ino is not None and ino.link is not None
+
+    def realpath(self, path):
+        return self.follow(path)
+
     def mkdir(self, path):
         path = self.norm(path)
         while path not in self.dirs:
@@ -83,6 +111,7 @@ class SimFS:
             new = Inode()
             new.cache = ino.cache
             new.durable = ino.cache
+            new.link = ino.link
             other.files[path] = new
             other.durable_files[path] = new
         return other
@@ -98,7 +127,7 @@ class SimFS:
         self.durable_files[path] = ino
 
     def get(self, path):
-        ino = self.files.get(self.norm(path))
+        ino = self.files.get(self.follow(path))
         return None if ino is None else ino.cache
 
     def listing(self):
@@ -163,17 +192,18 @@ class SimFS:
     def isfile(self, path):
         path = self.norm(path)
         post = self._point("isfile", path)
-        res = path in self.files
+        res = self.follow(path) in self.files
         self._after(post, "isfile")
         return res
 
     def exists(self, path):
-        path = self.norm(path)
+        path = self.follow(path)
         return path in self.files or path in self.dirs
 
     def access(self, path, mode):
         path = self.norm(path)
         post = self._point("access", path)
+        path = self.follow(path)
         if path not in self.files and path not in self.dirs:
             res = False
         elif mode & 2 and path in self.readonly:
@@ -222,7 +252,7 @@ class SimFS:
 
     # ------------------------------------------------------------------ open
     def open(self, path, mode="r", buffering=-1, encoding=None, errors=None, newline=None):
-        path = self.norm(path)
+        path = self.follow(path)
         binary = "b" in mode
         if "w" in mode:
             post = self._point("open", path)
@@ -271,7 +301,7 @@ class SimFS:
     O_RDONLY, O_WRONLY, O_RDWR, O_CREAT, O_EXCL, O_TRUNC, O_APPEND = 0, 1, 2, 64, 128, 512, 1024
 
     def os_open(self, path, flags, mode=0o777):
-        path = self.norm(path)
+        path = self.follow(path)
         post = self._point("open", path)
         ino = self.files.get(path)
         if ino is None:
@@ -309,7 +339,7 @@ class SimFS:
             fobj.close()
 
     def getsize(self, path):
-        ino = self.files.get(self.norm(path))
+        ino = self.files.get(self.follow(path))
         if ino is None:
             raise FileNotFoundError(errno.ENOENT, "No such file or directory", path)
         return len(ino.cache)
@@ -358,6 +388,7 @@ class SimFS:
             fresh = Inode()
             fresh.cache = content[ino.ino]
             fresh.durable = fresh.cache
+            fresh.link = ino.link
             new.files[path] = fresh
             new.durable_files[path] = fresh
         return new
@@ -539,9 +570,15 @@ class _DynPath:
 
     @staticmethod
     def realpath(path):
+        return FsHolder.fs.realpath(path)
+
+    @staticmethod
+    def abspath(path):
         return FsHolder.fs.norm(path)
 
-    abspath = realpath
+    @staticmethod
+    def islink(path):
+        return FsHolder.fs.islink(path)
 
     @staticmethod
     def isfile(path):
@@ -608,6 +645,17 @@ class DynOsShim:
     @staticmethod
     def getcwd():
         return FsHolder.fs.cwd
+
+    @staticmethod
+    def symlink(target, path):
+        return FsHolder.fs.symlink(target, path)
+
+    @staticmethod
+    def readlink(path):
+        ino = FsHolder.fs.files.get(FsHolder.fs.norm(path))
+        if ino is None or ino.link is None:
+            raise OSError(errno.EINVAL, "Invalid argument", path)
+        return ino.link
 
     O_RDONLY, O_WRONLY, O_RDWR, O_CREAT, O_EXCL, O_TRUNC, O_APPEND = 0, 1, 2, 64, 128, 512, 1024
     sep = "/"
